@@ -167,6 +167,7 @@ type Lemma struct {
 	Requires []Clause
 	Ensures  []Clause
 	Triggers []Clause
+	TrigGroups [][]Clause // one multi-pattern per `trigger` line (alternatives)
 	Where    string
 	Theory   string // "strings": proved with the native SMT string theory
 	Auto     bool   // assumed wherever its symbols occur (like an axiom), not only under `uses`
@@ -782,6 +783,7 @@ func parseSpecFile(path string) (*SpecFile, error) {
 				return nil, err
 			}
 			curLemma.Triggers = append(curLemma.Triggers, cs...)
+			curLemma.TrigGroups = append(curLemma.TrigGroups, cs)
 		case "induction":
 			if curLemma == nil {
 				return nil, fmt.Errorf("%s: induction outside lemma", l.where)
